@@ -131,7 +131,7 @@ Proof.
 Qed.
 
 Lemma cstore_seq_fails : forall ck cw v, (ck <= 1 \/ ck = 2) ->
-  match v with PList _ | PStr _ | PArr _ _ _ | PSArr _ _ _ _ | PBytes _ | PNone | PStruct _ _ => True | _ => False end ->
+  match v with PList _ | PStr _ | PCArr _ _ _ _ | PArr _ _ _ | PSArr _ _ _ _ | PBytes _ | PNone | PStruct _ _ => True | _ => False end ->
   exists e, cstore ck cw v = inl e.
 Proof.
   intros ck cw v Hk Hv. unfold cstore. destruct v; try contradiction;
@@ -172,6 +172,7 @@ Section Refuse.
         - destruct e; cbn [bytearray_conv]; try (apply cstore_seq_fails; auto; exact I).
           cbn [ood_elem] in H. destruct bs as [|b [|b2 bs]]; cbn [length Nat.eqb negb] in H; try discriminate;
             apply cstore_seq_fails; auto; exact I.
+        - apply cstore_seq_fails; auto. destruct e; exact I.
         - apply cstore_seq_fails; auto. destruct e; exact I.
         - apply cstore_seq_fails; auto. destruct e; exact I.
         - apply cstore_seq_fails; auto. destruct e; exact I. }
@@ -251,6 +252,7 @@ Section Refuse.
       change (fst char_ctype) with 3. change (snd char_ctype) with 1. rewrite H1.
       pose proof (char_refuse v H1 H2). destruct (char_validate_one v); [discriminate|congruence].
     - destruct k; try discriminate. pose proof (string_refuse n v H).
+      destruct (is_chararr n v); [discriminate|].
       destruct (string_validate_one n v); [discriminate|congruence].
     - destruct k as [|i|a b c].
       + (* whole-array assignment *)
